@@ -994,6 +994,9 @@ type swamp struct {
 	// capMu, so existing throughput is unaffected.
 	capMu sync.Mutex
 
+	// beaconBuildMu serialises the lazy cold builds of the ordered indexes
+	beaconBuildMu sync.Mutex
+
 	// creatingTreasures tracks treasures that have been created via CreateTreasure but not yet
 	// persisted (no Save call). Concurrent CreateTreasure calls for the same key must return the
 	// same in-flight treasure object so that subsequent guarded operations serialize correctly.
@@ -3243,8 +3246,12 @@ func (s *swamp) buildBeacon(beaconASC beacon.Beacon, beaconDESC beacon.Beacon, b
 		return
 	}
 
+	// One builder at a time, and `initialized` is published only after the slice is filled and
+	// sorted: a concurrent first reader either waits here or finds the finished index.
+	s.beaconBuildMu.Lock()
+	defer s.beaconBuildMu.Unlock()
+
 	if !beaconASC.IsInitialized() {
-		beaconASC.SetInitialized(true)
 		if verifhook.Enabled {
 			verifhook.Point("beacon.build", int(bc), "asc")
 		}
@@ -3287,11 +3294,12 @@ func (s *swamp) buildBeacon(beaconASC beacon.Beacon, beaconDESC beacon.Beacon, b
 		if err != nil {
 			beaconASC.SetInitialized(false)
 			slog.Error("failed to sort keyBeaconASC", "error", err)
+		} else {
+			beaconASC.SetInitialized(true)
 		}
 	}
 
 	if !beaconDESC.IsInitialized() {
-		beaconDESC.SetInitialized(true)
 		if verifhook.Enabled {
 			verifhook.Point("beacon.build", int(bc), "desc")
 		}
@@ -3334,6 +3342,8 @@ func (s *swamp) buildBeacon(beaconASC beacon.Beacon, beaconDESC beacon.Beacon, b
 		if err != nil {
 			beaconDESC.SetInitialized(false)
 			slog.Error("failed to sort keyBeaconDESC", "error", err)
+		} else {
+			beaconDESC.SetInitialized(true)
 		}
 	}
 
